@@ -395,3 +395,32 @@ func sysPrependStmt(f *File) ([]edit, []insertion) {
 	}
 	return eds, ins
 }
+
+// ---------- comment-prose ----------
+// Every line comment `//X` that stands on a line of its own becomes `// note: //X` (variant 0) or `/* note: //X */` (variant
+// 1): the comment's own text, slashes included, now follows other prose inside a comment. A diagnostic about the comment
+// must still sit at the start of a comment; one computed as "comment start + offset of the matched text" does not.
+func sysCommentProse(f *File, variant int) []edit {
+	var eds []edit
+	for _, cg := range f.AST.Comments {
+		for _, c := range cg.List {
+			if !strings.HasPrefix(c.Text, "//") || strings.Contains(c.Text, "*/") {
+				continue
+			}
+			start := off(c.Pos())
+			ls := start
+			for ls > 0 && f.Src[ls-1] != '\n' {
+				ls--
+			}
+			if strings.TrimSpace(string(f.Src[ls:start])) != "" {
+				continue
+			}
+			if variant == 0 {
+				eds = append(eds, edit{start, start, "// note: "})
+			} else {
+				eds = append(eds, edit{start, off(c.End()), "/* note: " + c.Text + " */"})
+			}
+		}
+	}
+	return eds
+}
